@@ -47,7 +47,7 @@ Section GenericTrace.
                coupled U hs (fst (step ms_select ms_lazy U c s o)) m'.
   Proof.
     intros U hs c s m o Hwf Hc Hop. destruct Hc as [Hl Hnd Hn Hk Hs].
-    destruct o as [name | name acc | name | k | opens | slot how]; cbn [step mon_step fst snd].
+    destruct o as [name | name acc | name | k | opens | slot how | dir wt]; cbn [step mon_step fst snd].
     - destruct (add_handler_live (tbl s) name [name] (nreg s) Hnd) as [E ND].
       eexists. split; [reflexivity|].
       constructor; cbn; [rewrite Hl, Hn; symmetry; exact E | exact ND | lia | exact Hk | exact Hs].
@@ -85,6 +85,8 @@ Section GenericTrace.
         constructor; cbn; [exact Hl | exact Hnd | exact Hn | exact Hk | intros Hhs; rewrite Hhs; reflexivity].
       + eexists. split; [reflexivity|].
         constructor; cbn; [exact Hl | exact Hnd | exact Hn | exact Hk | intros Hhs; rewrite Hhs; reflexivity].
+    - eexists. split; [reflexivity|].
+      constructor; cbn; [exact Hl | exact Hnd | exact Hn | reflexivity | intros Hhs; rewrite Hhs; reflexivity].
   Qed.
 
   Theorem mon_accepts_trace : forall U hs c ops s m i,
